@@ -5,6 +5,7 @@ C mirror (contracts/C07_image.h; member list checked against the class text on e
 """
 import re
 from vf.extract import Source, Unit
+from vf import lex
 from vf.lex import Rule, ExtractionBreak, find_def, mask, match_close
 from vf.pipeline import Group, Replay, ALL_LIB
 
@@ -59,8 +60,11 @@ NOT_DECIDED = [
     'resize_blit (floating point bilinear filter; it also lets out_of_range escape by design of read_pixel on source coordinates): not under contract',
     'which pixels a DASHED axis line colours and which pixels a line that starts outside the canvas colours: the code stops at the first out-of-canvas pixel (a horizontal line from x1 < 0 '
     'draws nothing); decided here: no exception, nothing off the segment changes, a changed pixel gets exactly the colour, a solid line between in-canvas end points is complete',
-    'the pixel model of text (which glyph pixels are set, returned width/height) and its clipping invariance as a single statement: decided are no exception for any byte string, glyph table '
-    'index in range, no overflow; rendering goes through fill_rect (clipping-invariant by lemma) and swallowed write_pixel only (the native replay driver checks text clipping invariance on samples)',
+    'text: decided per CELL (the body of the character loop cut as a function, group draw_text_v.cell): for any cursor position, any byte, a cell colours exactly its glyph pixels '
+    'over its 6 x 9 background box (colour decided for an opaque background, ba == 0xFF), newline / carriage return / cursor advance as the geometry prescribes, everything else '
+    'untouched -- including cells partly or wholly off the canvas.  NOT decided: the composition of the cells into the whole text as one statement (the cursor recurrence across '
+    'the outer loop is checked for safety only), translucent backgrounds (overlapping rows of adjacent lines blend twice), the returned width/height (max_x_pos is updated after the '
+    'cursor was reset, so the width of a multi-line text is the width of its last line -- outside this property), text clipping invariance as a single lemma (sampled natively by the replay driver)',
     'the blend arithmetic itself is regression-strength: fill_rect and blit use the constants 0xFF / 255 for every channel width (a 16-bit canvas without alpha channel reports alpha 0xFFFF, '
     'which blit treats as "blend"), Image.hh still documents blit as "doesn\'t respect alpha" and the drawing functions as "no drawing functions respect the alpha channel"; the contracts pin what '
     'the pinned commit computes, whether that is intended is not decided.  Specification-strength are: which pixels change, never out_of_range, frame, clipping, the copy/mask/key rules',
@@ -607,6 +611,35 @@ def canvas_unit(ctx, src):
                       '__CPROVER_decreases(buffer_size - z)',
                    2: '__CPROVER_assigns(yy, verif_exc, %s)\n__CPROVER_loop_invariant(0 <= yy && yy <= 7 && verif_exc == 0 && GHOST_WF(self, g_dr, g_dg, g_db, g_da))\n__CPROVER_decreases(7 - yy)' % DG,
                    3: '__CPROVER_assigns(xx, verif_exc, %s)\n__CPROVER_loop_invariant(0 <= xx && xx <= 5 && verif_exc == 0 && GHOST_WF(self, g_dr, g_dg, g_db, g_da))\n__CPROVER_decreases(5 - xx)' % DG})
+    # ---- one text cell = the body of the character loop, cut as a function of the cursor (per-pixel model of text, any cursor position)
+    def top_continue(body, where=''):
+        """`continue;` of the character loop (not inside a nested loop) leaves the cell function"""
+        m = mask(body)
+        spans = []
+        for mo in re.finditer(r'\b(?:for|while)\s*\(', m):
+            pe = lex.match_close(m, mo.end() - 1)
+            bo = m.index('{', pe)
+            spans.append((mo.start(), lex.match_close(m, bo)))
+        out, pos, n = [], 0, 0
+        for mo in re.finditer(r'\bcontinue;', m):
+            if any(a <= mo.start() <= b for a, b in spans):
+                continue
+            out.append(body[pos:mo.start()] + 'return;')
+            pos = mo.end()
+            n += 1
+        if n == 0 and not spans:
+            raise ExtractionBreak('%s: character loop body has neither continue nor nested loop' % where)
+        return ''.join(out) + body[pos:]
+    u.block(src, CC, sig('void Image::draw_text_v(ssize_t x, ssize_t y, ssize_t* width, ssize_t* height, uint64_t r, uint64_t g, uint64_t b, uint64_t a, uint64_t br, uint64_t bg, uint64_t bb, uint64_t ba, const char* fmt, va_list va)'),
+            r'for \(size_t z = 0; z < buffer\.size\(\); z\+\+\)',
+            new_header='void Image_draw_text_cell(Image* self, ssize_t x, uint8_t ch_in, uint64_t r, uint64_t g, uint64_t b, uint64_t a, uint64_t br, uint64_t bg, uint64_t bb, uint64_t ba)',
+            rules=[Rule(r'\bbuffer\[z\]', 'ch_in', regex=True, count=1), Fn(top_continue),
+                   Rule(r'(for \(ssize_t yy = 0;)', r'TEXT_SNAP; \1', regex=True, count=1)] + std_rules(),
+            nloops=2, loops={
+                1: '__CPROVER_assigns(yy, verif_exc, %s)\n__CPROVER_loop_invariant(0 <= yy && yy <= 7 && verif_exc == 0 && GHOST_WF(self, g_dr, g_dg, g_db, g_da))\n'
+                   '__CPROVER_loop_invariant(CELL_INV(yy, 0))\n__CPROVER_decreases(7 - yy)' % DG,
+                2: '__CPROVER_assigns(xx, verif_exc, %s)\n__CPROVER_loop_invariant(0 <= xx && xx <= 5 && verif_exc == 0 && GHOST_WF(self, g_dr, g_dg, g_db, g_da))\n'
+                   '__CPROVER_loop_invariant(CELL_INV(yy, xx))\n__CPROVER_decreases(5 - xx)' % DG})
     # the loop-level functions reach pixel memory only through the accessors
     if re.search(r'\bdata\b', mask(u.text())):
         raise ExtractionBreak('a loop-level function touches Image::data directly')
@@ -753,6 +786,7 @@ def plan(ctx):
     G('draw_line', 'draw_line', 'Image::draw_line (no exception, colour of changed pixels; the path itself is not decided)', 'Image_draw_line', loops=True)
     G('draw_line(uint32)', 'draw_line_c', 'Image::draw_line(.., color)', 'Image_draw_line_c', replace=['Image_draw_line'])
     G('draw_text_v', 'draw_text_v', 'Image::draw_text_v', 'Image_draw_text_v', replace=['Image_fill_rect'], loops=True)
+    G('draw_text_v.cell', 'draw_text_cell', 'Image::draw_text_v (body of the character loop)', 'Image_draw_text_cell', replace=['Image_fill_rect'] + PIXC, loops=True)
     L('fill_rect.clipping_invariance', 'fill_rect_clip', 'Image::fill_rect (small canvas == crop of larger canvas)', 'L_fill_rect_clip', ['Image_fill_rect'])
     L('blit.clipping_invariance', 'blit_clip', 'Image::blit (small destination == crop of larger destination)', 'L_blit_clip', ['Image_blit'])
     # the blend rules with explicit arithmetic, as lemmas over the function-point contracts (loop-free; SMT back ends: two instances of the same
